@@ -1,7 +1,7 @@
 (* C03: serialise-then-parse is the identity (up to: empty text = absent text). *)
 From Coq Require Import List NArith ZArith Bool String Lia.
 Import ListNotations.
-From Indi Require Import Base.Sx Msg.Registry Msg.Equality Msg.Model Xml.Lex Xml.Print.
+From Indi Require Import Base.Sx Msg.Registry Msg.Equality Msg.Model Xml.Lex Xml.Print Xml.RoundTrip.
 
 Definition dict_eqb_exact (a b : dict) : bool :=
   list_eqb (fun x y => str_eqb (fst x) (fst y) && str_eqb (snd x) (snd y)) a b.
@@ -243,6 +243,21 @@ Theorem string_roundtrip_given_xml_layer R m :
   from_string R (to_string m) = Some (norm_msg m) /\ to_string (norm_msg m) = to_string m.
 Proof.
   intros Hx Hn Hw. unfold from_string, to_string. rewrite Hx. split.
+  - now apply roundtrip_tree.
+  - now rewrite reserialize_tree.
+Qed.
+
+(* the string level, with the XML layer's round trip proved (Xml/RoundTrip.v): what remains of the premise is that
+   the message's element can be printed at all - names are XML names, attribute values and text consist of
+   characters XML can carry, text without a carriage return (a parser reads that as a line feed) *)
+Definition printable (m : msg) : bool := tree_okb (msg_to_xml m).
+
+Theorem string_roundtrip R m :
+  nodup_strb (map ptag (rparts R)) = true ->
+  wfb R m = true -> printable m = true ->
+  from_string R (to_string m) = Some (norm_msg m) /\ to_string (norm_msg m) = to_string m.
+Proof.
+  intros Hn Hw Hp. unfold from_string, to_string. rewrite (parse_print_b _ Hp). split.
   - now apply roundtrip_tree.
   - now rewrite reserialize_tree.
 Qed.
